@@ -28,7 +28,7 @@ func TestBoundedC03Access(t *testing.T) {
 		}
 	}
 	allowedOps, deniedOps := 0, 0
-	for _, storage := range []string{"hashmap", "bbolt", "fstree"} {
+	for _, storage := range []string{"hashmap", "bbolt", "fstree", "badger"} {
 		for _, cache := range []int{0, 64} {
 			dbName := fmt.Sprintf("c03-%s-%d", storage, cache)
 			if _, err := Register(&Database{Name: dbName, Description: "bounded", StorageType: storage}); err != nil {
@@ -189,7 +189,7 @@ func TestBoundedC03Access(t *testing.T) {
 	if allowedOps == 0 || deniedOps == 0 {
 		fail(fmt.Sprintf("vacuous harness: %d permitted, %d forbidden operations", allowedOps, deniedOps))
 	}
-	fmt.Printf("BOUNDED name=C03/access-matrix cases=%d distinct=%d bound=14 operations (get, exists, query, subscribe, put, put-new, attribute insert, absolute / relative expiry, make-secret, make-crown-jewel, delete, purge, batch put) x 5 interfaces (4 privilege combinations and one created without options) x 4 record flag combinations x hashmap, bbolt, fstree x read cache off/on, each on a record written by a privileged interface; checked through a privileged interface afterwards: a forbidden operation returns, lists or pushes nothing, leaves the stored record and its flags unchanged and does not report success (%d forbidden, %d permitted operations)\n", cases, cases, deniedOps, allowedOps)
+	fmt.Printf("BOUNDED name=C03/access-matrix cases=%d distinct=%d bound=14 operations (get, exists, query, subscribe, put, put-new, attribute insert, absolute / relative expiry, make-secret, make-crown-jewel, delete, purge, batch put) x 5 interfaces (4 privilege combinations and one created without options) x 4 record flag combinations x hashmap, bbolt, fstree, badger x read cache off/on, each on a record written by a privileged interface; checked through a privileged interface afterwards: a forbidden operation returns, lists or pushes nothing, leaves the stored record and its flags unchanged and does not report success (%d forbidden, %d permitted operations)\n", cases, cases, deniedOps, allowedOps)
 	if fails > 0 {
 		t.Fatalf("%d of %d cases fail", fails, cases)
 	}
